@@ -9,7 +9,8 @@ from vf import native as nv
 
 
 class ScriptRgen:
-    def __init__(self, randoms=(), integers=()):
+    def __init__(self, randoms=(), integers=(), wrap=False):
+        self.wrap = wrap  # map a scripted integer into the requested range instead of rejecting it
         self.randoms, self.ints = list(randoms), list(integers)
         self.n_random = self.n_int = 0
 
@@ -20,6 +21,8 @@ class ScriptRgen:
     def integers(self, lo, hi):
         self.n_int += 1
         v = self.ints.pop(0) if self.ints else lo
+        if self.wrap:
+            v = lo + (v - lo) % (hi - lo)
         assert lo <= v < hi, f"scripted integer {v} outside [{lo},{hi})"
         return v
 
@@ -279,3 +282,123 @@ def run_quantis(w):
         if (status == "QEA") == passes:
             bad.append(f"energy rule: u={w['u']} pacc={pacc:.6f} (beta0={w['beta0']}, beta1={w['beta1']}) but status {status}")
     return bad, info
+
+
+def run_wf(w):
+    """w: dict(old, interfaces, cap|None, maxlength, n_jumps|None, randoms, integers, scripts).  Runs the REAL
+    wire_fencing (start condition L) through the scripted engine and checks the C09 clauses natively."""
+    from infretis.core import tis
+
+    old = mk_old_path(w["old"], maxlen=w["maxlength"], generated=("wf", 0.0, 0, 0))
+    before = frames_snapshot(old)
+    rgen = ScriptRgen(randoms=w.get("randoms", []), integers=w.get("integers", []), wrap=True)
+    eng = ScriptEngine(w["scripts"])
+    extra = {}
+    if w.get("cap") is not None:
+        extra["interface_cap"] = w["cap"]
+    if w.get("n_jumps") is not None:
+        extra["n_jumps"] = w["n_jumps"]
+    ens = mk_ens(w["interfaces"], w["maxlength"], ("L",), rgen, mc_move="wf", extra=extra)
+    try:
+        acc, trial, status = tis.wire_fencing(ens, old, eng, start_cond=("L",))
+    except Exception as e:
+        return [f"wire_fencing raised {e!r}"], {}
+    info = {"accepted": acc, "status": status, "trial": nv.orders(trial), "engine_calls": len(eng.calls)}
+    bad = []
+    if acc != (status == "ACC") or (acc and trial.status != "ACC"):
+        bad.append(f"accept={acc} but status={status}/{trial.status}")
+    if frames_snapshot(old) != before:
+        bad.append("old path frames changed")
+    if acc:
+        bad += check_valid(trial, w["interfaces"], ("L",), w["maxlength"])
+    return bad, info
+
+
+def run_runmd(w):
+    """w: dict(status, n) -- the REAL run_md with select_shoot / log_mdlogs / calc_cv_vector replaced by stubs that return
+    scripted trials: the old path of every picked ensemble is replaced exactly when the status is ACC."""
+    from infretis.core import tis
+
+    n = w.get("n", 1)
+    keys = (0,) if n == 1 else (-1, 0)
+    olds = {k: mk_old_path([-0.1, 0.4, -0.2]) for k in keys}
+    trials = [mk_old_path([-0.3, 0.6, 1.2]) for _ in keys]
+    for o in olds.values():
+        o.weights = ("old-weights",)
+    before = {k: (frames_snapshot(o), o.weights) for k, o in olds.items()}
+    picked = {k: {"ens": {"tis_set": {"lambda_minus_one": False}}, "traj": olds[k], "exe_dir": "."} for k in keys}
+    md = {"picked": picked, "moves": [], "mc_moves": ["sh", "sh", "sh"], "trial_len": [], "trial_op": [], "generated": [],
+          "interfaces": [0.0, 1.0], "cap": None}
+    saved = tis.select_shoot, tis.log_mdlogs, tis.calc_cv_vector
+    tis.select_shoot = lambda picked, start_cond=("L",): (w["status"] == "ACC", trials, w["status"])
+    tis.log_mdlogs = lambda inp: None
+    tis.calc_cv_vector = lambda path, *a, **k: ("cv", id(path))
+    bad = []
+    try:
+        out = tis.run_md(md)
+    except Exception as e:
+        return [f"run_md raised {e!r}"], {}
+    finally:
+        tis.select_shoot, tis.log_mdlogs, tis.calc_cv_vector = saved
+    if out is not md or md.get("status") != w["status"]:
+        bad.append("status not recorded in the returned dictionary")
+    for k, t in zip(keys, trials):
+        cur = picked[k]["traj"]
+        if w["status"] == "ACC":
+            if cur is not t or t.weights != ("cv", id(t)):
+                bad.append(f"ens {k}: accepted trial not installed with its weight vector")
+        else:
+            if cur is not olds[k]:
+                bad.append(f"ens {k}: old path replaced although the status is {w['status']}")
+            if (frames_snapshot(olds[k]), olds[k].weights) != before[k]:
+                bad.append(f"ens {k}: old path changed by a rejected move")
+    if any(len(md[x]) != len(keys) for x in ("moves", "trial_len", "trial_op", "generated")):
+        bad.append("not exactly one record per trial")
+    return bad, {"status": w["status"]}
+
+
+# ------------------------------------------------------------------ which native failure belongs to which clause
+_CLAUSE_KEYWORDS = [
+    # (substring of the obligation's clause name, substrings of native violation texts that restate that clause)
+    ("length_rule", ["length rule"]),
+    ("energy_rule", ["energy rule"]),
+    ("contains_the_shooting_point", ["shooting point"]),
+    ("time_ordered", ["time origin"]),
+    ("shooting_point_is_interior", ["shooting index"]),
+    ("shooting_points_are_never_end_points", ["shooting index"]),
+    ("accept_iff_status", ["accept="]),
+    ("status_ACC_iff", ["accept="]),
+    ("returned_status", ["accept="]),
+    ("untouched", ["old path frames changed", "old path changed"]),
+    ("crosses", ["cross"]),
+    ("reaches_the_ensemble_interface", ["cross"]),
+    ("starts_on", ["start "]),
+    ("starts_outside", ["start "]),
+    ("never_touches_left", ["touches the left"]),
+    ("ends_outside", ["end point"]),
+    ("stays_inside", ["interior frame"]),
+    ("length_limit", ["longer than"]),
+    ("maxlength", ["longer than"]),
+    ("ends_with_first_two", ["does not end with"]),
+    ("starts_with_last_two", ["does not start with"]),
+    ("lambda_minus_one", ["lambda_-1"]),
+    ("no_zero_division", ["ZeroDivisionError"]),
+    ("path_replaced_iff_ACC", ["replaced", "not installed"]),
+    ("weight_vector", ["not installed"]),
+    ("keeps_frames_and_weights", ["old path changed"]),
+    ("records_the_moves_status", ["status not recorded"]),
+    ("one_record_per_trial", ["one record per trial"]),
+]
+
+
+def relevant(obname, found):
+    """True iff the natively found failure restates the clause of THIS obligation (or the real code raised: then every
+    clause about the call's outcome fails).  Used for `unknown` obligations and for models that did not replay."""
+    clause = obname.split("post:")[-1] if "post:" in obname else obname.split("/")[-1]
+    texts = [str(v) for v in (found.get("native") or {}).get("violations", [])] or [str((found.get("native") or {}).get("detail", ""))]
+    if any(" raised " in t for t in texts):
+        return True
+    for key, words in _CLAUSE_KEYWORDS:
+        if key in clause:
+            return any(w in t for w in words for t in texts)
+    return False
